@@ -67,6 +67,24 @@ def gen_values(env, ns, proto, rng, finite=False, big=False, items=(0, 6), pad_l
     return vals
 
 
+def lengthen(env, ns, proto, vals, rng, finite=False, prefer=None, cap=4000):
+    """Lengthen one non-empty stream step (one named in `prefer` if possible) so that the encoded stream spans
+    more than one 65536-byte staging buffer *after* values that were already handed out: a refill happens while
+    the caller may still hold earlier items.  Returns the index of the lengthened step, or None."""
+    sidx = [k for k, (_, _, s) in enumerate(proto.steps) if s and vals[k]]
+    if not sidx:
+        return None
+    pref = [k for k in sidx if prefer and proto.steps[k][0] in prefer]
+    k = rng.choice(pref) if pref and rng.chance(0.7) else rng.choice(sidx)
+    qt = M.qualify(proto.steps[k][1], ns)
+    one = bytearray()
+    R.Codec(env).enc(qt, vals[k][0], one)
+    reps = min(cap, max(1, (BUF + rng.randint(0, 3000)) // max(1, len(one))))
+    vg = V.ValueGen(env, rng, finite_only=finite, json_safe=finite)
+    vals[k] = vals[k] + [vg.gen(qt) for _ in range(reps)]
+    return k
+
+
 def gen_partitions(proto, vals, rng):
     parts = {}
     for i, (name, t, stream) in enumerate(proto.steps):
